@@ -49,6 +49,8 @@ Proof. exact @range_emit_le1. Qed.
 Print Assumptions C02_range_emit_le1.
 
 (* ---- obligations re-proved on every run over the regenerated inventory ---- *)
+(* diagnostics for a broken obligation: order-sensitive map ranges that are not (exactly) reviewed *)
+Eval vm_compute in (map m_key (filter (fun m => m_sensitive m && negb (site_reviewed reviewed_map_sites m)) map_range_sites)).
 Theorem C02_map_sites_covered :
   forallb (fun m => negb (m_sensitive m) || site_reviewed reviewed_map_sites m) map_range_sites = true.
 Proof. vm_compute. reflexivity. Qed.
